@@ -1372,7 +1372,7 @@ pub fn oracle_c11(ctx: &Ctx, out: &mut Out, s: &Subject, rng: &mut Rng) {
                     continue;
                 }
                 if !weaker_or_equal(&r1, &fresh[gi]) {
-                    fail_once(out, &mut seen, &format!("{}: interrupted solve of `{}` (callback false: {}) answers {} but the full answer is {}", name, low.goals[gi].0, sname, render(&r1), render(&fresh[gi])), &input(""), &format!("{}_interrupted_answer_contradicts", name));
+                    fail_once(out, &mut seen, &format!("{}: interrupted solve of `{}` (callback false: {}) answers {} but the full answer is {}", name, low.goals[gi].0, sname, render(&r1), render(&fresh[gi])), &input(""), &format!("{}_interrupted_answer_contradicts", if name == "slg" { "slg" } else { "recursive" }));
                 }
                 // a second limited solve, then full solves on the same instance
                 let r2 = limited(&mut *solver, g, &[true, false], rng.chance(1, 2));
@@ -1600,7 +1600,7 @@ pub fn oracle_c09(ctx: &Ctx, out: &mut Out, s: &Subject, rng: &mut Rng) {
                         match &r2 {
                             Ok(_) => out.count("c09_overflow_finishes_with_larger_depth"),
                             Err(m2) if m2.contains("overflow depth reached") => out.count("c09_overflow_again_with_larger_depth"),
-                            Err(m2) if m2.contains("verif-work-budget-exceeded") => out.fail(&format!("{}: with 8x the overflow depth solving `{}` does not return within {} steps", name, gt, WORK_BUDGET * 4), &input, "recursive_work_budget_exceeded"),
+                            Err(m2) if m2.contains("verif-work-budget-exceeded") => out.fail(&format!("{}: with 8x the overflow depth solving `{}` does not return within {} steps", name, gt, WORK_BUDGET * 4), &input, if caching_enabled { "recursive_work_budget_exceeded" } else { "recursive_nocache_exponential_reprove" }),
                             Err(m2) => out.fail(&format!("{}: with 8x the overflow depth solving `{}` panicked: {}", name, gt, m2), &input, "recursive_solver_panic"),
                         }
                     }
